@@ -43,7 +43,8 @@ pub open spec fn to_vowel(k: char) -> Option<char> {
     else if k == '\u{09CC}' { Some('\u{0994}') } else { None }
 }
 pub open spec fn marks_c(c: char) -> bool { MARKS@.contains(c) }
-pub uninterp spec fn consonant_c(c: char) -> bool;
+pub open spec fn consonants() -> Seq<char> { seq!['\u{0995}','\u{0996}','\u{0997}','\u{0998}','\u{0999}','\u{099A}','\u{099B}','\u{099C}','\u{099D}','\u{099E}','\u{099F}','\u{09A0}','\u{09A1}','\u{09A2}','\u{09A3}','\u{09A4}','\u{09A5}','\u{09A6}','\u{09A7}','\u{09A8}','\u{09AA}','\u{09AB}','\u{09AC}','\u{09AD}','\u{09AE}','\u{09AF}','\u{09B0}','\u{09B2}','\u{09B6}','\u{09B7}','\u{09B8}','\u{09B9}','\u{09CE}','\u{09DC}','\u{09DD}','\u{09DF}'] }
+pub open spec fn consonant_c(c: char) -> bool { consonants().contains(c) }
 pub uninterp spec fn reph_spec(b: Seq<char>) -> Seq<char>;
 
 pub open spec fn c12(buf: Seq<char>, value: Seq<char>, vowel: bool, chandra: bool, trad: bool, old_reph: bool) -> Seq<char> {
@@ -203,7 +204,7 @@ pub const ZWJ: char = '\u{200D}';
 pub const ZWNJ: char = '\u{200C}';
 
 /// Is the provided `c` is a ligature making Kar?
-pub fn is_ligature_making_kar(c: char) -> bool {
+pub fn is_ligature_making_kar(c: char) -> (r: bool) ensures r == (c == '\u{09C1}' || c == '\u{09C2}' || c == '\u{09C3}') {
     c == B_U_KAR || c == B_UU_KAR || c == B_RRI_KAR
 }
 
@@ -319,6 +320,7 @@ impl Utility for char {
 
     /// Checks the char for a pure consonant character.
     fn is_pure_consonant(&self) -> bool {
+        proof { broadcast use axiom_pat_contains_char; reveal_strlit("\u{0995}\u{0996}\u{0997}\u{0998}\u{0999}\u{099A}\u{099B}\u{099C}\u{099D}\u{099E}\u{099F}\u{09A0}\u{09A1}\u{09A2}\u{09A3}\u{09A4}\u{09A5}\u{09A6}\u{09A7}\u{09A8}\u{09AA}\u{09AB}\u{09AC}\u{09AD}\u{09AE}\u{09AF}\u{09B0}\u{09B2}\u{09B6}\u{09B7}\u{09B8}\u{09B9}\u{09CE}\u{09DC}\u{09DD}\u{09DF}"); assert("\u{0995}\u{0996}\u{0997}\u{0998}\u{0999}\u{099A}\u{099B}\u{099C}\u{099D}\u{099E}\u{099F}\u{09A0}\u{09A1}\u{09A2}\u{09A3}\u{09A4}\u{09A5}\u{09A6}\u{09A7}\u{09A8}\u{09AA}\u{09AB}\u{09AC}\u{09AD}\u{09AE}\u{09AF}\u{09B0}\u{09B2}\u{09B6}\u{09B7}\u{09B8}\u{09B9}\u{09CE}\u{09DC}\u{09DD}\u{09DF}"@ =~= consonants()); }
         "\u{0995}\u{0996}\u{0997}\u{0998}\u{0999}\u{099A}\u{099B}\u{099C}\u{099D}\u{099E}\u{099F}\u{09A0}\u{09A1}\u{09A2}\u{09A3}\u{09A4}\u{09A5}\u{09A6}\u{09A7}\u{09A8}\u{09AA}\u{09AB}\u{09AC}\u{09AD}\u{09AE}\u{09AF}\u{09B0}\u{09B2}\u{09B6}\u{09B7}\u{09B8}\u{09B9}\u{09CE}\u{09DC}\u{09DD}\u{09DF}".contains(*self)
     }
 }
